@@ -106,6 +106,27 @@ class Ctx:
         self.t0 = time.time()
         self.deadline = self.t0 + budget_s
         self._session_sigs = set()
+        self.hb_path = None
+        self.partial_path = None
+        self._since_dump = 0
+
+    def heartbeat(self, value):
+        """Tell the parent which case is running (hang detection is the parent's job: a case stuck
+        inside C code cannot be interrupted from within the process)."""
+        if not self.hb_path:
+            return
+        try:
+            with open(self.hb_path + ".tmp", "w") as fh:
+                json.dump({"t": time.time(), "case": value}, fh, default=str)
+            os.replace(self.hb_path + ".tmp", self.hb_path)
+            self._since_dump += 1
+            if self._since_dump >= 25:
+                self._since_dump = 0
+                with open(self.partial_path + ".tmp", "w") as fh:
+                    json.dump({"ok": True, "stats": self.stats.dump()}, fh, default=str)
+                os.replace(self.partial_path + ".tmp", self.partial_path)
+        except OSError:
+            pass
 
     # ---- helpers for property modules
     def n(self, quick: int, thorough: int) -> int:
@@ -155,6 +176,7 @@ class Ctx:
         for value in cells:
             if self.out_of_time():
                 break
+            self.heartbeat(value)
             case = check(value)
             done += 1
             for f in self.record(case, value):
@@ -186,6 +208,7 @@ class Ctx:
                 if time.time() > self.deadline and "sig" not in holder:
                     self.stats.truncated = True
                     return
+                self.heartbeat(value)
                 case = check(value)
                 for f in self.record(case, value):
                     if f.sig in self._session_sigs:
@@ -238,8 +261,12 @@ def _shard_main(prop, shard, nshards, seed, tier, budget, out):
         runner.init()
         mod = importlib.import_module(f"vf.props.{prop.lower()}")
         ctx = Ctx(prop, shard, nshards, seed, tier, budget)
+        ctx.hb_path = out + ".hb"
+        ctx.partial_path = out + ".partial"
         if shard == 0:
             runner.SELFCHECK["left"] = 5
+        if shard == 0:
+            _regression_replays(ctx, mod, prop)
         mod.run(ctx)
         ctx.stats.extra["mode_selfcheck_cases"] = runner.SELFCHECK["done"]
         result = {"ok": True, "stats": ctx.stats.dump()}
@@ -249,6 +276,25 @@ def _shard_main(prop, shard, nshards, seed, tier, budget, out):
         project.cleanup_now()
     with open(out, "w") as fh:
         json.dump(result, fh, default=str)
+
+
+def _regression_replays(ctx, mod, prop):
+    """Seconds-long replay tier: the minimal inputs of defects that were repaired (replays/<id>/fixed-*.json)
+    are re-judged on every run; a defect that returns is an ordinary violation (it is no longer listed as known)."""
+    import glob
+
+    n = 0
+    for path in sorted(glob.glob(os.path.join(VERIF, "replays", prop, "fixed-*.json"))):
+        if ctx.out_of_time():
+            break
+        value = json.load(open(path))["case"]
+        ctx.heartbeat(value)
+        case = mod.replay(value)
+        case.labels = list(case.labels) + ["regression-replay"]
+        for f in ctx.record(case, value):
+            ctx.add_violation(f, value)
+        n += 1
+    ctx.stats.extra["regression_replays"] = n
 
 
 # --------------------------------------------------------------------------------- parent
@@ -315,15 +361,41 @@ def main(argv=None):
     merged = Stats()
     errors = []
     hard_limit = budget * 1.5 + 600  # shrinking may run past the budget
+    case_limit = getattr(mod, "CASE_LIMIT_S", 300)
+    hung = {}
+    pending = set(range(len(procs)))
+    while pending:
+        time.sleep(1.0)
+        for i in sorted(pending):
+            p, out, log = procs[i]
+            if p.poll() is not None:
+                pending.discard(i)
+                continue
+            hb = None
+            try:
+                hb = json.load(open(out + ".hb"))
+            except (OSError, ValueError):
+                pass
+            if hb and time.time() - hb["t"] > case_limit:
+                p.kill()
+                p.wait()
+                hung[i] = hb
+                pending.discard(i)
+            elif time.time() - t0 > hard_limit:
+                p.kill()
+                p.wait()
+                pending.discard(i)
+                errors.append(f"shard {i}: killed after hard limit {hard_limit:.0f}s" + (f"; last case: {json.dumps(hb['case'], default=str)[:600]}" if hb else ""))
     for i, (p, out, log) in enumerate(procs):
-        try:
-            p.wait(timeout=max(5, hard_limit - (time.time() - t0)))
-        except subprocess.TimeoutExpired:
-            p.kill()
-            errors.append(f"shard {i}: killed after hard limit")
+        log.close()
+        if i in hung:
+            merged.violations.append({"sig": "hang|case-exceeded-time-limit", "detail": {"limit_s": case_limit, "note": "shard process killed by the engine while this case was running"},
+                                      "case": hung[i]["case"]})
+            out = out + ".partial"  # statistics gathered before the hang
+            if not os.path.exists(out):
+                continue
+        if any(e.startswith(f"shard {i}:") for e in errors):
             continue
-        finally:
-            log.close()
         if not os.path.exists(out):
             tail = open(log.name).read()[-2000:]
             errors.append(f"shard {i}: no result (exit {p.returncode})\n{tail}")
@@ -401,6 +473,16 @@ def _write_replay(prop, v) -> str:
 
 def _replay(mod, prop, path) -> int:
     doc = json.load(open(path))
+    if not os.environ.get("VF_REPLAY_INNER"):
+        # run the case in a child so that a hanging case is reported instead of hanging the replay
+        limit = getattr(mod, "CASE_LIMIT_S", 300)
+        try:
+            r = subprocess.run([sys.executable, "-m", "vf.engine", prop, "--replay", path], env=dict(os.environ, VF_REPLAY_INNER="1"), timeout=limit)
+            return r.returncode
+        except subprocess.TimeoutExpired:
+            print(f"VIOLATION property={prop} replay={path}")
+            print(f"  signature: hang|case-exceeded-time-limit ({limit}s)")
+            return 1
     case = mod.replay(doc["case"])
     if not case.failures:
         print(f"{prop} replay {path}: property holds on this case")
